@@ -3279,19 +3279,27 @@ static void build_stmt(WorkList *list, ScopeStack *scopes, ASTNode *stmt, int in
                 range->as.call.name && strcmp(range->as.call.name, "range") == 0 &&
                 range->as.call.arg_count == 2) {
                 
+                /* The range is evaluated once, before the loop, start then end (as the VM and the
+                 * evaluator do): an end expression written in the loop condition would be
+                 * evaluated again on every iteration and see what the body changed. */
+                int range_id = ++g_seq_counter;
+                emit_indent_item(list, indent);
+                emit_formatted(list, "{ int64_t _nl_from_%d = ", range_id);
+                build_expr(list, range->as.call.args[0], env);
+                emit_formatted(list, "; int64_t _nl_to_%d = ", range_id);
+                build_expr(list, range->as.call.args[1], env);
+                emit_literal(list, ";\n");
                 emit_indent_item(list, indent);
                 emit_literal(list, "for (int64_t ");
                 emit_literal(list, var);
-                emit_literal(list, " = ");
-                build_expr(list, range->as.call.args[0], env);
-                emit_literal(list, "; ");
+                emit_formatted(list, " = _nl_from_%d; ", range_id);
                 emit_literal(list, var);
-                emit_literal(list, " < ");
-                build_expr(list, range->as.call.args[1], env);
-                emit_literal(list, "; ");
+                emit_formatted(list, " < _nl_to_%d; ", range_id);
                 emit_literal(list, var);
                 emit_literal(list, "++) ");
                 build_stmt(list, scopes, stmt->as.for_stmt.body, indent, env, fn_registry);
+                emit_indent_item(list, indent);
+                emit_literal(list, "}\n");
             } else {
                 /* Fallback for non-range for loops */
                 emit_indent_item(list, indent);
